@@ -14,6 +14,7 @@ def run(tier, seed):
                      'Transparency of the wrappers themselves is C01 (Seq/Opt/Choice contracts hold at every depth by structural induction).')
     wiring.spill_obligations(rep, tier)
     wiring.closure_obligations(rep, tier)
+    wiring.frontend_capture_obligations(rep, tier)
     wiring.block_accounting_obligations(rep, tier)
     wiring.no_direct_rule_calls(rep, tier)
     wiring.no_python_recursion_obligations(rep, tier)
